@@ -114,6 +114,8 @@ def enc(w, val):
         return {"tuple": [enc(w, x) for x in val]}
     if isinstance(val, dict):
         return {"dict": [[str(k), enc(w, val[k])] for k in sorted(val, key=str)]}
+    if isinstance(val, (bytes, bytearray)):
+        return {"bytes": [len(val), engine.h64(bytes(val[:64]).hex() + str(len(val)))]}
     return f"?{type(val).__name__}"
 
 
@@ -182,6 +184,14 @@ class PExec(O.Exec):
 
     def decode_val(self, v):
         if isinstance(v, dict):
+            if "blob" in v:
+                # one bytes OBJECT per (size, key) in this world, so that several
+                # attributes can share it
+                blobs = self.__dict__.setdefault("blobs", {})
+                key = (v["blob"], v.get("key", 0))
+                if key not in blobs:
+                    blobs[key] = bytes([65 + v.get("key", 0) % 26]) * v["blob"]
+                return blobs[key]
             if "ref" in v:
                 return self.g(v["ref"])
             if "tuple" in v:
@@ -437,6 +447,7 @@ class C10(engine.Property):
         "deep-under-lowered-recursion-limit",
         "fresh-interpreter-flag-on-at-load",
         "continuation-mutation-on-copy",
+        "bytes-attribute",
     ]
 
     # -- configuration --------------------------------------------------------------------
@@ -565,7 +576,12 @@ class C10(engine.Property):
         name = rng.choice(ATTR_NAMES)
         r = rng.random()
         refs = view.vertices() + view.edges()
-        if r < 0.25:
+        if r < 0.08:
+            # binary data: small and shared between attributes, or past the
+            # size at which pickle writes bytes out of band (64 KiB)
+            val = {"blob": rng.choice([0, 3, 3, 40, 65536, 70001]), "key": rng.randrange(2)}
+            st.stats["probe:bytes-attribute"] += 1
+        elif r < 0.25:
             val = rng.choice([0, 1, -7, 2.5, "text", "", None, True])
         elif r < 0.5:
             val = {"ref": rng.choice(refs)}
